@@ -322,6 +322,25 @@ def run(ck):
                           "the index shifted into the response is parameters.len() read AFTER the push: it points one past the parameter that holds the returned data", g.loc(late[0]) if late else g.loc(bi))
     ck.floor("DOM", "parameter indices encoded in responses", nidx, 2)
 
+    # the instance's handle tables go into the suspended host AS THEY ARE: the same-named fields of the live state, untouched
+    # (no truncation or compaction - positions in these tables are the handles the resumed contract still holds)
+    pr0 = getfn(ck, "sc", E, E + "::v1::process_receive_result")
+    if pr0:
+        aggs0 = [(bi, st["rv"]) for bi in sorted(pr0.reachable()) for st in pr0.stmts(bi) if st.get("rv", {}).get("k") == "agg" and st["rv"].get("adt", "").endswith("v1::types::SavedHost")]
+        ck.ob("COV", pr0.path, "sites:SavedHost", len(aggs0) == 1, "%d places build the suspended host" % len(aggs0), pr0.loc(), nontrivial=False)
+        for (bi, rv) in aggs0:
+            for fld, op in zip(rv.get("fields", []), rv["ops"]):
+                if fld not in ("current_generation", "entry_mapping", "iterators"):
+                    continue
+                o = pr0.origins(op, deep=False)
+                ok = ("field", fld) in o and ("field", "state") in o and not any(a[0] == "call" for a in o)
+                ck.ob("DEFUSE", pr0.path, "saved-as-is:%s" % fld, ok, "SavedHost.%s is host.state.%s, moved" % (fld, fld) if ok else
+                      "SavedHost.%s is not a plain move of host.state.%s (sources %s)" % (fld, fld, sorted(a[1] for a in o if a[0] in ("field", "call"))[:6]), pr0.loc(bi))
+        shrink = [(bi, t) for (bi, t) in pr0.calls(r"Vec::<.*>::(truncate|pop|retain|drain|clear|remove|swap_remove|dedup|split_off|resize)$")
+                  if any(("field", x) in pr0.origins(t["args"][0], deep=True) for x in ("iterators", "entry_mapping"))]
+        ck.ob("WHO", pr0.path, "handle-tables-not-compacted-at-suspension", not shrink,
+              "the handle tables are not modified while the host is saved" if not shrink else
+              "%s is applied to a handle table while the execution is suspended: handles the contract still holds change meaning (or die) across the interrupt" % shrink[0][1]["f"]["name"], pr0.loc(shrink[0][0]) if shrink else pr0.loc())
     # events logged before a query-type interrupt stay with the suspended execution: the pending logs are taken out of the
     # saved host only for interrupts that end a section (transfer, call, upgrade: `should_clear_logs()`); taking them for a
     # query loses them, because a query produces no event in which they could be reported
